@@ -60,6 +60,12 @@ def run(repo, rep, tier):
     from .c12 import namespace_validated_first
     typed_property_transfer(repo, rep)
     swallowed_error_does_not_cut_a_loop(repo, rep)
+    # the operation acts on the namespace the caller named: an explicit
+    # namespace= is not replaced by the namespace of the object argument
+    # (CreateInstance / ModifyInstance / DeleteInstance run through the
+    # WBEMConnection methods also on the mock connection)
+    from .c04 import explicit_namespace_wins
+    explicit_namespace_wins(repo, rep, 'C10.R18')
     from ..argorder import argument_order_rule
     argument_order_rule(repo, rep, 'C10.R14', tuple(
         m.relpath for m in repo.modules.values()
